@@ -81,9 +81,10 @@ InnerSeq == <<
 >>
 
 \* deterministic pseudo-random operator index from Seed, sample number s, place j
-Rnd(s, j, m) == (((Seed + 1) * 7919 + s * 104729 + j * 1299709 + s * j * 15485863) % m) + 1
+\* (TLC integers are 32 bit: keep the products small)
+Rnd(s, j, m) == (((((Seed % 1000) + 1) * 7919 + (s % 10000) * 4729 + j * 9973 + ((s * j) % 1000) * 5843) % 100003) % m) + 1
 
-Sel(i, j, k) == (i + j + k + Seed) % Mod = 0
+Sel(i, j, k) == (i + j + k + (Seed % 1000)) % Mod = 0
 
 \* the first component a family is enumerated by (picked in Init), the rest in Next
 FirstRange(fam) ==
@@ -114,7 +115,7 @@ DescsOf(fam, i1) ==
     [] fam = "suf1" -> LET d == MkBin(<<BinOpSeq[i1]>>) IN
                        {WithSuf(d, q, SufSeq[s]) : q \in PrePositions(d), s \in 1..NS}
     [] fam = "suf2" -> UNION {LET d == MkBin(<<BinOpSeq[i1], BinOpSeq[j]>>) IN
-                              {WithSuf(d, q, SufSeq[1 + ((i1 + j + q + Seed) % NS)]) : q \in PrePositions(d)} : j \in 1..NB}
+                              {WithSuf(d, q, SufSeq[1 + ((i1 + j + q + (Seed % 1000)) % NS)]) : q \in PrePositions(d)} : j \in 1..NB}
     [] fam = "sufsuf" -> {WithSuf(MkBin(<<>>), 1, Suf2Seq[i1])}
                          \cup {WithSuf(MkBin(<<BinOpSeq[j]>>), 1, Suf2Seq[i1]) : j \in {4, 6, 15}}
     [] fam = "inner" -> {WithSuf(MkBin(<<>>), 1, InnerSeq[i1])}
@@ -296,20 +297,25 @@ Pool == <<NumV(12), NumV(6), NumV(2), NumV(3), StrV("s"), BoolV(TRUE), BoolV(FAL
 TyPool == <<"number", "string", "bool", "number", "string", "bool", "bool", "number">>
 NPool == Len(Pool)
 
-\* an operand assignment: pool index per position.  Up to three positions:
-\* every assignment (NPool^np, in counting order); more: Table4, cyclically.
+\* An operand assignment gives every position a pool index; it is named by its
+\* number in counting order (base NPool, position 1 least significant).
+\* One and two positions, and operator pairs (family bin2): every assignment.
+\* Otherwise a table: Table3 / Table4 were computed once by a greedy cover over
+\* all 8^3 / 8^4 assignments (on all operator pairs / on samples of the
+\* operator triples) so that every pair of groupings that some assignment of
+\* the pool tells apart is told apart by one of the table.  A fifth position
+\* takes the value of the first.
 Pow(b, e) == IF e = 0 THEN 1 ELSE IF e = 1 THEN b ELSE IF e = 2 THEN b * b ELSE b * b * b
-Table4 == <<
-  <<1, 2, 3, 4>>
->>
+Table3 == <<289, 145, 326, 257, 263, 384, 318, 66, 9, 293, 352, 385>>
+Table4 == <<2332, 3271, 33, 2103, 3361, 577, 2054, 3457>>
 
 RECURSIVE SetToSeq(_)
 SetToSeq(S) == IF S = {} THEN <<>> ELSE LET x == CHOOSE y \in S : TRUE IN <<x>> \o SetToSeq(S \ {x})
 
-NCand(np) == IF np <= 3 THEN Pow(NPool, np) ELSE Len(Table4)
-Cand(np, c) ==
-  IF np <= 3 THEN [p \in 1..np |-> (((c - 1) \div Pow(NPool, p - 1)) % NPool) + 1]
-  ELSE [p \in 1..np |-> Table4[c][((p - 1) % 4) + 1]]
+AllCands(f, np) == np <= 2 \/ (np = 3 /\ f = "bin2")
+NCand(f, np) == IF AllCands(f, np) THEN Pow(NPool, np) ELSE IF np = 3 THEN Len(Table3) ELSE Len(Table4)
+Decode(code, np) == [p \in 1..np |-> (((code - 1) \div Pow(NPool, (p - 1) % 4)) % NPool) + 1]
+Cand(f, np, c) == Decode(IF AllCands(f, np) THEN c ELSE IF np = 3 THEN Table3[c] ELSE Table4[c], np)
 
 Outcome(t, np, cand) ==
   LET env0 == [x \in {VarName[p] : p \in 1..np} |-> Pool[cand[CHOOSE p \in 1..np : VarName[p] = x]]]
@@ -359,8 +365,12 @@ TreeLaws(t, flat) ==
      /\ StripParens(rt) = StripParens(flat)        \* same tokens in the same order
      /\ StripParens(fp) = StripParens(flat)
      /\ Len(rt) <= Len(fp)
-     \* no parenthesis of the minimal rendering is redundant
-     /\ \A i \in {x \in 1..Len(rt) : rt[x].tag = "("} : ParseExpr(Without(rt, i, Match(rt, i))) # t
+     \* no parenthesis of the minimal rendering is redundant: without it the text
+     \* means something else or nothing.  (Not claimed for `(x is T)`: the table
+     \* asks for the parentheses in `(x is T) * y`, but the right side of `is` is
+     \* one token, so a parser has no other way to read `x is T * y`.)
+     /\ \A i \in {x \in 1..Len(rt) : rt[x].tag = "("} :
+          LET j == Match(rt, i) IN rt[j - 2].tag = "is" \/ ParseExpr(Without(rt, i, j)) # t
      \* a rendering without grouping parentheses is the descriptor's token sequence
      /\ Len(rt) = Len(flat) => rt = flat
 
@@ -369,7 +379,9 @@ Laws ==
     LET cs == Cases(d)
         flat == Flat(d)
     IN /\ \A t \in cs : TreeLaws(t, flat)
-       /\ \A t \in cs : Size(t) = Len(d.ops) + Len(FlattenSeq(d.pre)) + Len(FlattenSeq(d.post))
+       \* every grouping applies the same operators (inner: plus those inside [ ] and ( ))
+       /\ \A t \in cs : IF fam = "inner" THEN \A u \in cs : Size(u) = Size(t)
+                        ELSE Size(t) = Len(d.ops) + Len(FlattenSeq(d.pre)) + Len(FlattenSeq(d.post))
        \* different groupings are different texts and different printed trees
        /\ Cardinality({Render(t) : t \in cs}) = Cardinality(cs)
        /\ Cardinality({Sexpr(t) : t \in cs}) = Cardinality(cs)
@@ -379,10 +391,11 @@ Laws ==
        \* the deviation only regroups operators of one level: with pairwise
        \* different levels (assignments aside) it changes nothing; two adjacent
        \* operators of one non-assignment level without parentheses always differ
+       \* (unless the first is `is`, whose right side is not an expression)
        /\ (fam \in {"bin1", "bin2", "bin3", "chain4"} /\ Cardinality(Levels(d.ops)) = Cardinality(NonAssign(d.ops)))
             => \A t \in cs : ParseExprDev(Render(t)) = t
        /\ (fam \in {"bin2", "bin3"} /\ \E j \in 1..(Len(d.ops) - 1) :
-               d.ops[j] \notin AssignOps /\ d.ops[j + 1] \notin AssignOps /\ InfixPrec(d.ops[j]) = InfixPrec(d.ops[j + 1]))
+               d.ops[j] \notin AssignOps \cup {"is"} /\ d.ops[j + 1] \notin AssignOps /\ InfixPrec(d.ops[j]) = InfixPrec(d.ops[j + 1]))
             => \A t \in cs : Render(t) = flat => ParseExprDev(flat) # t
 
 NegLaws ==
@@ -392,14 +405,22 @@ NegLaws ==
 \* ----------------------------------------------------------------- vectors
 Texts(toks) == [j \in 1..Len(toks) |-> toks[j].text]
 
+\* the first assignment (in counting order) under which cases j and x are
+\* both inside the evaluated universe and differ; 0: none
+RECURSIVE FirstDiscr(_, _, _, _, _)
+FirstDiscr(table, nc, j, x, c) ==
+  IF c > nc THEN 0
+  ELSE IF Discr(table[c][j], table[c][x]) THEN c
+  ELSE FirstDiscr(table, nc, j, x, c + 1)
+
 CaseVec(t, cseq, np, nc, table, j) ==
   LET rt == Render(t)
       dt == ParseExprDev(rt)
       others == {x \in 1..Len(cseq) : x # j}
-      firstDisc(x) == LET H == {c \in 1..nc : Discr(table[c][j], table[c][x])} IN
-                      IF H = {} THEN 0 ELSE SetMin(H)
+      fd == [x \in others |-> FirstDiscr(table, nc, j, x, 1)]
+      firstDisc(x) == fd[x]
       picks == {firstDisc(x) : x \in others} \ {0}
-      extra == ((Seed * 31 + Len(rt) * 7 + j) % nc) + 1
+      extra == (((Seed % 1000) * 31 + Len(rt) * 7 + j) % nc) + 1
       runs == SetToSeq(picks \cup {extra})
   IN [text |-> Texts(rt),
       full |-> Texts(FullParen(t)),
@@ -409,31 +430,34 @@ CaseVec(t, cseq, np, nc, table, j) ==
       nalt |-> Cardinality(others),
       ndisc |-> Cardinality({x \in others : firstDisc(x) # 0}),
       runs |-> [q \in 1..Len(runs) |->
-                  [vals |-> [p \in 1..np |-> Pool[Cand(np, runs[q])[p]]],
-                   tys |-> [p \in 1..np |-> TyPool[Cand(np, runs[q])[p]]],
+                  [vals |-> [p \in 1..np |-> Pool[Cand(fam, np, runs[q])[p]]],
+                   tys |-> [p \in 1..np |-> TyPool[Cand(fam, np, runs[q])[p]]],
                    out |-> table[runs[q]][j]]]]
 
-\* table[c][j]: outcome of case j under assignment c (built once per state)
-RECURSIVE BuildRow(_, _, _, _), BuildTable(_, _, _)
-BuildRow(cseq, np, cand, j) ==
-  IF j = 0 THEN <<>> ELSE Append(BuildRow(cseq, np, cand, j - 1), Outcome(cseq[j], np, cand))
-BuildTable(cseq, np, c) ==
-  IF c = 0 THEN <<>> ELSE Append(BuildTable(cseq, np, c - 1), BuildRow(cseq, np, Cand(np, c), Len(cseq)))
+NegVec(toks) ==
+  [text |-> Texts(toks),
+   lax |-> Sexpr(ParseWith(toks, {"lax-target"})),
+   dev |-> <<[name |-> "parse-right-assoc", lax |-> Sexpr(ParseWith(toks, {"lax-target", "parse-right-assoc"}))]>>]
+
+\* table[c][j]: outcome of case j under assignment c (TLCEval: computed once per state)
+BuildTable(cseq, np, nc) ==
+  TLCEval([c \in 1..nc |-> TLCEval([j \in 1..Len(cseq) |-> Outcome(cseq[j], np, Cand(fam, np, c))])])
 
 Vec ==
   done =>
     IF fam = "neg"
-    THEN Emit([fam |-> fam, neg |-> [j \in 1..Len(NegSeq) |-> Texts(NegSeq[j])]])
+    THEN Emit([fam |-> fam, negflat |-> [j \in 1..Len(NegSeq) |-> NegVec(NegSeq[j])]])
     ELSE LET cseq == SetToSeq(Cases(d))
              np == Len(d.ops) + 1
-             nc == NCand(np)
+             nc == NCand(fam, np)
              table == BuildTable(cseq, np, nc)
              flat == Flat(d)
              \* the bare token sequence is outside the grammar (no assignable target):
-             \* it must be refused.  (The compound forms are left out: whether
-             \* `a + b += c` is refused statically is not fixed by C06.)
+             \* it must be refused - or, if the parser does not validate targets (C11),
+             \* at least be grouped as the table says (lax).  (The compound forms are
+             \* left out: whether `a + b += c` is refused statically is not fixed by C06.)
              negflat == IF ParseExpr(flat).k = "error" /\ {d.ops[x] : x \in 1..Len(d.ops)} \cap CompoundOps = {}
-                        THEN <<Texts(flat)>> ELSE <<>>
+                        THEN <<NegVec(flat)>> ELSE <<>>
          IN Emit([fam |-> fam, flat |-> Texts(flat), np |-> np, negflat |-> negflat,
                   cases |-> [j \in 1..Len(cseq) |-> CaseVec(cseq[j], cseq, np, nc, table, j)]])
 =============================================================================
